@@ -412,3 +412,60 @@ SCENARIOS = SCENARIOS + [
              assumptions=["python ints in the cache scenario bounded by 2**53 (exact int/float comparison)"]),
     Scenario("C12.builder.constant_cache[list]", _mk(s_constant_cache, True), F(BUILDER, "GraphBuilder._get_or_create_constant")),
 ]
+
+
+def s_constant_cache_mixed(ctx):
+    """A scalar and a sequence (or sequences of different lengths) are different tensors: a request of one shape must
+    never be answered from the cache entry of another shape, whatever the values."""
+    import onnx_ir as ir
+    from onnxscript._internal import builder
+    from pyvc.values import SFloat, FP64
+    I = Interp(ctx, models=CM.converter_models())
+    root = SObj(builder.GraphBuilder, "root")
+    root.fields.update(_root=root, _constant_cache={}, _graph=Opaque("graph"))
+    made = []
+
+    def m_initializer(interp, self, tensor, name=None, qualify=True):
+        v = SObj(ir.Value, "init")
+        v.fields.update(name=name, const_value=tensor)
+        made.append(v)
+        return v
+    I.models[builder.GraphBuilder.initializer] = m_initializer
+    I.models[builder._constant_name] = lambda interp, *a: "const_name"
+    I.models[builder._dtype_suffix] = lambda interp, *a: "sfx"
+    dts = [None, ir.DataType.FLOAT, ir.DataType.INT64]
+    d1 = dts[ctx.choose(len(dts), "dtype1")]
+    d2 = dts[ctx.choose(len(dts), "dtype2")]
+
+    def operand(tag):
+        n = [0, 2, 3][ctx.choose(3, f"{tag}: scalar / 2 elements / 3 elements")]
+        k = ctx.choose(3, f"{tag}-kind")
+
+        def one(nm):
+            if k == 0:
+                return SBool(ctx.bool(nm))
+            if k == 1:
+                v = ctx.int(nm)
+                ctx.assume(z3.And(v > -(1 << 53), v < (1 << 53)))
+                ctx.witness[nm] = v
+                return SInt(v)
+            v = ctx.const(nm, FP64)
+            ctx.witness[nm] = v
+            return SFloat(v)
+        return (one(tag) if n == 0 else [one(f"{tag}_{i}") for i in range(n)]), n
+    a1, n1 = operand("a")
+    a2, n2 = operand("b")
+    if n1 == n2:
+        ctx.cover("same shape (covered by the scalar / list scenarios)")
+        return
+    clo = I.closure_of(builder.GraphBuilder._get_or_create_constant)
+    r1 = I.run_closure(clo, [root, a1, d1], {})
+    r2 = I.run_closure(clo, [root, a2, d2], {})
+    ctx.check("C12.builder.constant_cache.mixed.no_hit_between_a_scalar_and_a_sequence_or_different_lengths",
+              r2 is not r1 and len(made) == 2, CL_CACHE)
+
+
+SCENARIOS = SCENARIOS + [
+    Scenario("C12.builder.constant_cache[mixed shapes]", s_constant_cache_mixed, F(BUILDER, "GraphBuilder._get_or_create_constant", "_constant_cache_key"),
+             kind="bounded", bound="scalar, 2- and 3-element sequences; element values unbounded (IEEE doubles, ints below 2**53, bools)"),
+]
